@@ -24,6 +24,8 @@ CHECKS = {
  'C20': ('relation C20 of Pairs.tla on (after-history, fresh-interpreter) trace pairs with byte-equality observations', '7 C20'),
  'C18': ('record-consistency predicates of Props.tla judged by TLC on recorded traces', '7 C18'),
 }
+LEVEL = {'count': "(M) TLC model-checks spec/Droop.tla exhaustively over a small scope (every election of 3 candidates, <= 3-4 ballots, 18 rule/arithmetic configurations) and by simulation over a large one (5 candidates, 60 ballots), evaluating this property's operators of spec/Props.tla on every finished count; (S->C) exported behaviours are replayed into the real code and compared action by action; (C->S) the same operators are evaluated by TLC on traces recorded from the real code over stratified shaped inputs, incl. the shipping precisions (BigProps.tla). Bounded/sampled, not a proof; see evidence for what a run covered", 'C03': 'the statutory rule specifications (spec/Rule*.tla, clause-by-clause transcriptions) are model-checked (exhaustive small scope + simulation), every exported behaviour is replayed into the real code with all fields compared, and recorded executions of the real code are validated in lock-step as behaviours of the specification (TraceCount.tla), at statutory and reduced precision. Bounded/sampled, not a proof', 'pairs': "metamorphic lemma on the specification's count-as-a-function (Droop.tla: exhaustive small scope + simulation) where one exists, and the TLA+ relation of spec/Pairs.tla evaluated by TLC on pairs of traces recorded from the real code over stratified shaped inputs. Bounded/sampled, not a proof", 'arith': "the laws of spec/Num.tla (and BigNum.tla for operands to 10^40) evaluated by TLC on calls recorded from the real arithmetic classes over an operand grid covering every rounding and display boundary; the specification's own arithmetic is model-checked against the same laws (MCNum.tla). Sampled, not a proof", 'blt': 'the reader specification spec/Blt.tla (tokenizer + parser + validation) is model-checked for totality/validity over all 1-2 word edits (MCBlt.tla) and compared by TLC with the real reader on well-formed renderings (with the election they denote) and on systematic and random ill-formed texts (TraceBlt.tla). Bounded/sampled, not a proof', 'C17': "the option lattice spec/Options.tla (four layers, every rule's options(), every class's initialize(); >= 60 000 cases) and CliArgs.tla are model-checked exhaustively; exported cases are replayed into Election.__init__ / Options.parse / Droop.main; perturbed-option pairs of statutory counts judged by Pairs.tla. Exhaustive within the modelled option domains", 'C19': 'spec/Interrupt.tla (record, lazy header fill, interrupt, three renderers) model-checked over all interleavings; crash-point records from the real code (KeyboardInterrupt injected at executed lines via sys.settrace, directly and through Droop.main) judged by TraceInterrupt.tla. Exhaustive for the abstract model, sampled (quick) / near-exhaustive (thorough) over line events', 'C20': 'spec/ClassState.tla (all class attributes of the three arithmetic classes over histories <= 3) model-checked and its histories replayed on the real classes; relation C20 of Pairs.tla on (after-history, fresh-interpreter) executions with byte-equality observations. Bounded/sampled, not a proof'}
+KIND = {'C01': 'count', 'C02': 'count', 'C04': 'count', 'C05': 'count', 'C06': 'count', 'C07': 'count', 'C08': 'count', 'C09': 'count', 'C18': 'count', 'C03': 'C03', 'C10': 'pairs', 'C11': 'pairs', 'C13': 'arith', 'C12': 'arith', 'C14': 'arith', 'C15': 'blt', 'C16': 'blt', 'C17': 'C17', 'C19': 'C19', 'C20': 'C20'}
 NA = {}
 for i in range(1, 21):
     p = 'C%02d' % i
@@ -37,7 +39,7 @@ def main():
             evidence_file='/verif/evidence/%s.json' % p, replay_cmd_template='./run %s --replay {path}' % p,
             engine='tlc',
             level_claimed=dict(category='model_checking',
-                               text='TLA+ property operators (spec/Props.tla) evaluated by TLC on traces recorded from the real code over seeded random and shaped inputs; see evidence for what a run covered',
+                               text=LEVEL[KIND[p]],
                                design_ref='DESIGN.md section ' + ref),
             level_note='trusted: harness/drive.py trace recording, TLC, CommunityModules Json; numbers above 2^29 are not encodable and are counted as skipped',
             technique='TLA+ specification + TLC trace validation: ' + tech))
